@@ -266,7 +266,9 @@ func WithClientIPResolver(resolver ClientIPResolver) Option {
 // packages that use route annotation.
 func WithAnnotation(key, value any) RouteOption {
 	return routeOptionFunc(func(s sealedOption) error {
-		if !reflect.TypeOf(key).Comparable() {
+		// Check the dynamic value, a comparable type may still hold a value that cannot be hashed (e.g. an interface
+		// field holding a slice).
+		if key == nil || !reflect.ValueOf(key).Comparable() {
 			return fmt.Errorf("%w: annotation key is not comparable", ErrInvalidConfig)
 		}
 		if s.route.annots == nil {
